@@ -140,6 +140,7 @@ c.loop(2, kind="for x", inv=lambda self, old, k, x1: painted(self._curline, old.
 c.ens("a0-moves-below-b2", lambda self, b2: eq(self._curpos, b2))
 c.ens("run-up-to-b2-takes-current-colour-which-is-kept", lambda self, old, b2: And(
     painted(self._curline, old.self._curline, self.width, Max(0, old.self._curpos), b2, old.self._color), eq(self._color, old.self._color)))
+c.ens("row-state-kept", lambda self: row_state(self))      # what the next coding step assumes
 
 
 # -- horizontal mode: a0a1 then a1a2 runs clipped at the row end (T.6 2.2.3) --------------------------------------
@@ -163,6 +164,7 @@ c.ens("two-runs-then-a0-at-a2", lambda self, old, n1, n2: And(
                  If(And(le(Max(0, old.self._curpos) + n1, t), lt(t, Max(0, old.self._curpos) + n1 + n2)), 1 - old.self._color,
                     at(old.self._curline, t)))), "t"),
     eq(self._color, old.self._color)))
+c.ens("row-state-kept", lambda self: row_state(self))      # what the next coding step assumes
 
 # -- make-up and terminating codes accumulate into the two run lengths ---------------------------------------------
 HS = lambda **kw: T.Obj("pdfminer.ccitt:CCITTG4Parser", _n1=T.Int(0, 5000), _n2=T.Int(0, 5000), _color=T.Int(0, 1),
